@@ -130,6 +130,38 @@ Section rtree_induction.
     end.
 End rtree_induction.
 
+Section effect_induction.
+  Variable P : effect -> Prop.
+  Hypothesis Hins : forall p, P (EIns0 p).
+  Hypothesis Happ : forall p, P (EApp p).
+  Hypothesis Hclear : P EClear.
+  Hypothesis Hrebind : forall l, P (ERebind l).
+  Hypothesis Hscope : forall paths inner, Forall P inner -> P (EScope paths inner).
+  Fixpoint effect_ind2 (e : effect) : P e :=
+    match e with
+    | EIns0 p => Hins p | EApp p => Happ p | EClear => Hclear | ERebind l => Hrebind l
+    | EScope paths inner =>
+        Hscope paths inner ((fix go (l : list effect) : Forall P l :=
+                              match l with
+                              | [] => Forall_nil P
+                              | x :: r => Forall_cons x (effect_ind2 x) (go r)
+                              end) inner)
+    end.
+End effect_induction.
+
+(* a nested scope runs its inner effects as a block *)
+Lemma apply_scope_eq :
+  forall paths inner s, apply_effect (EScope paths inner) s = scoped paths (apply_effects inner) s.
+Proof.
+  intros paths inner s.
+  assert (E : forall es s1, (fix go (es : list effect) (s1 : st) {struct es} : st :=
+                               match es with [] => s1 | x :: r => go r (apply_effect x s1) end) es s1
+                            = apply_effects es s1).
+  { unfold apply_effects. induction es as [| x r IH]; intros s1; simpl; [reflexivity | apply IH]. }
+  simpl. unfold scoped, with_sys_path.
+  destruct (is_nil paths && sys_path_noop_when_empty); simpl; rewrite E; reflexivity.
+Qed.
+
 Lemma load_tree_eq :
   forall w a f st sm search req kids s,
     load_tree w a f st sm search (RNode req kids) s =
@@ -353,6 +385,30 @@ Qed.
 Theorem static_root_result :
   forall w store submodules search t s, static_result w (tree_reqs t) (fst (load_tree w false false store submodules search t s)).
 Proof. intros. apply load_tree_static. Qed.
+
+(* any history of calls on one loader built with inspection disallowed: every call is static, whatever came before
+   (load, resolve_aliases loading external packages, load again ...) *)
+Lemma run_history_static :
+  forall w store search catch steps s, quiet s (snd (run_history w false false store search catch steps s)).
+Proof.
+  intros w store search catch steps. induction steps as [| h r IH]; intros s; simpl; [apply quiet_refl |].
+  pose proof (session_static w store (hs_submodules h) search (hs_root h) (hs_later h) s) as Q.
+  destruct (session w false false store (hs_submodules h) search (hs_root h) (hs_later h) s) as [res s1]. simpl in Q.
+  destruct res as [x |].
+  - destruct (caught_by catch x); [eapply quiet_trans; [exact Q | apply IH] | exact Q].
+  - eapply quiet_trans; [exact Q | apply IH].
+Qed.
+
+Theorem static_history_executes_nothing :
+  forall w store search catch steps s r s',
+    run_history w false false store search catch steps s = (r, s') ->
+    executions s' = executions s /\ inspections s' = inspections s /\ mods s' = mods s /\
+    cur s' = cur s /\ next s' = next s /\ heap s' = heap s.
+Proof.
+  intros w store search catch steps s r s' H.
+  pose proof (run_history_static w store search catch steps s) as Q. rewrite H in Q. simpl in Q.
+  destruct Q as (H1 & H2 & H3 & H4 & H5 & H6). repeat split; assumption.
+Qed.
 
 (* through every public entry point: the options arrive as given, so the loaders they build are static too *)
 Lemma run_phases_static :
